@@ -95,14 +95,27 @@ void run_width(const Case &c, pbt::Ctx &ctx) {
         }
     } else {
         std::string doc = "[\"";
+        // form 3: the escape sits inside a longer string. What surrounds it varies with the scalar: plain letters, hex-digit
+        // characters directly before and after the escape (they must not be taken for part of it), an escaped backslash in
+        // front, another escape behind.
+        static const char *pres[]  = {"ab", "0", "d8", "x\\\\", "", "F"};
+        static const char *pres_u[] = {"ab", "0", "d8", "x\\", "", "F"};
+        static const char *posts[] = {"yz", "abc", "09", "Ff", "e5x", "d", "\\u0041", ""};
+        static const char *posts_u[] = {"yz", "abc", "09", "Ff", "e5x", "d", "A", ""};
         if (c.form == 3) {
-            doc += "ab";
-            pre = {'a', 'b'};
+            const unsigned a = (c.cp * 7 + 1) % 6;
+            doc += pres[a];
+            for (const char *q = pres_u[a]; *q; ++q) {
+                pre.push_back((unsigned char)*q);
+            }
         }
         doc += escape_text(c.cp, c.form);
         if (c.form == 3) {
-            doc += "yz";
-            post = {'y', 'z'};
+            const unsigned b = (c.cp * 5 + (c.cp >> 10) + 3) % 8;
+            doc += posts[b];
+            for (const char *q = posts_u[b]; *q; ++q) {
+                post.push_back((unsigned char)*q);
+            }
         }
         doc += "\"]";
         // exact-size heap buffer, no terminator
